@@ -100,7 +100,7 @@ pub fn run(ctx: &Ctx) -> Report {
         &format!("wild-programs[{}]", ctx.variant),
         "config x 1..5 DrawTarget calls with arbitrary coordinates (draw_iter streams mixing in-bounds points with -1, w, h, 65535, 65536+k, i32::MIN/MAX; rectangles of every position class incl. huge and zero-sized; finite/short/infinite colour streams); oracle = clipped reference image, every cell compared after every call; non-trivial = some call mixes in-bounds and out-of-bounds elements",
     );
-    let n = ctx.cases(200_000, 5_000_000);
+    let n = ctx.cases(350_000, 6_000_000);
     run_generated(&mut sec, ctx.seed, n, ctx.workers, || strategy(gen::ConfigMenu::all_transports(), 5), check, sig);
     rep.sections.push(sec);
     if ctx.tier == Tier::Thorough {
